@@ -22,13 +22,15 @@ Heads == << [s |-> "Plain Title",        id |-> "plaintitle"],
             \* long titles: the label has no length limit (140 one-byte characters; 70 two-byte characters = 140 bytes)
             [s |-> "Long " \o Rep("abcdefghi ", 14), id |-> "long" \o Rep("abcdefghi", 14)],
             [s |-> Rep("~E", 70), id |-> Rep("~E", 70)] >>
-Styles == {"atx", "atxc", "setext1", "setext2"}
+Styles == {"atx", "atxc", "setext1", "setext2", "setext1i", "setext2i"}          \* (...i: the title line indented by two / three spaces)
 HeadId(h) == IF h.manual THEN "man" \o ToString(h.t) ELSE Heads[h.t].id
 HeadSrc(h, lvl) ==
   LET ttl == Heads[h.t].s \o (IF h.manual THEN " [man" \o ToString(h.t) \o "]" ELSE "") IN
   CASE h.style = "atx"     -> Rep("#", lvl) \o " " \o ttl \o "\n\n"
     [] h.style = "atxc"    -> Rep("#", lvl) \o " " \o ttl \o " " \o Rep("#", lvl) \o "\n\n"
     [] h.style = "setext1" -> ttl \o "\n=======\n\n"
+    [] h.style = "setext1i" -> "  " \o ttl \o "\n=======\n\n"
+    [] h.style = "setext2i" -> "   " \o ttl \o "\n-------\n\n"
     [] OTHER               -> ttl \o "\n-------\n\n"
 RefSrc(h) == IF h.manual THEN "[man" \o ToString(h.t) \o "]" ELSE "[" \o Heads[h.t].s \o "][]"
 EvSrc(e) == CASE e.a = "call"   -> "x" \o Open(e.k) \o e.l \o "]"
@@ -64,7 +66,7 @@ HasCall(d, k, n) == \E i \in 1 .. Len(d.ev) : KindOf(d.ev[i]) = k /\ Number(d, i
 Entries(d, k) == [n \in 1 .. Count(d, k) |-> <<n, HasCall(d, k, n)>>]
 HeadIds(d) == [i \in 1 .. Len(d.heads) |-> HeadId(d.heads[i])]
 \* a level-restricted TOC ({{TOC:2-3}}) lists the headings of those levels only; the first heading is level 1, the others level 2
-LevelOf(d, i) == CASE d.heads[i].style = "setext1" -> 1 [] d.heads[i].style = "setext2" -> 2 [] OTHER -> (IF i = 1 THEN 1 ELSE 2)
+LevelOf(d, i) == CASE d.heads[i].style \in {"setext1", "setext1i"} -> 1 [] d.heads[i].style \in {"setext2", "setext2i"} -> 2 [] OTHER -> (IF i = 1 THEN 1 ELSE 2)
 TocIdx(d) == IF d.tocr THEN {i \in 1 .. Len(d.heads) : LevelOf(d, i) \in 2 .. 3} ELSE 1 .. Len(d.heads)
 TocOf(d, ids) == [n \in 1 .. Cardinality(TocIdx(d)) |-> ids[CHOOSE x \in TocIdx(d) : Cardinality({y \in TocIdx(d) : y < x}) = n - 1]]
 TableId(d) == IF CapSp(d) THEN "cap" ELSE "tbl"
